@@ -22,6 +22,60 @@ STANDARD = {
         "required": {"class:taiko-first2-not-both-hits": 1, "class:short-sequence(<=3)": 1, "mode:osu": 1, "mode:taiko": 1,
                      "mode:catch": 1, "mode:mania": 1},
     },
+    "C03": {
+        "variants": ["rel"],
+        "quick": 12000,
+        "thorough": 300000,
+        "rule": "case = (map text, reachable mode, Difficulty without passed_objects, random schedule of next/nth(k)/last with random "
+                "consistent/inconsistent score states); after every call the result is compared with the one-shot mode-specific "
+                "Performance on the same map with passed_objects(cursor) and that state, None iff nothing remained, len() == remaining. "
+                "non-trivial = comparison at cursor >= 2; distinct = (map, settings, cursor, state) digests",
+        "required": {"mode:osu": 1, "mode:taiko": 1, "mode:catch": 1, "mode:mania": 1},
+    },
+    "C04": {
+        "variants": ["rel"],
+        "quick": 6000,
+        "thorough": 150000,
+        "rule": "case = (map text, reachable mode, Difficulty incl. passed_objects, score specification); 21 entry points "
+                "(Performance::new(map|&map|attrs|perf_attrs), attrs.performance(), mode-specific new/try_new/from, try_mode, "
+                "mode_or_ignore) each followed by .difficulty(D)+score must equal Performance::new(&converted); embedded "
+                "difficulty attributes must equal Difficulty::calculate. non-trivial = map has >= 2 counted objects",
+        "required": {"class:convert": 1, "class:passed_objects": 1, "mode:osu": 1, "mode:taiko": 1, "mode:catch": 1, "mode:mania": 1},
+    },
+    "C07": {
+        "variants": ["rel"],
+        "quick": 4000,
+        "thorough": 100000,
+        "rule": "case = map of any native mode (15% already converted) x all 4 target modes x random settings; convert/convert_ref/"
+                "convert_mut equal or same error, identity borrowed, convertibility predicate, convert flags, re-conversion rejected, "
+                "calculate_for_mode/strains_for_mode/gradual difficulty/gradual performance/Performance::try_mode/mode_or_ignore/"
+                "TryFrom<OsuPerformance> on the source equal the calculation on the explicitly converted map. "
+                "non-trivial = converted map has >= 2 objects",
+        "required": {"class:converted": 1, "class:identity": 1, "class:conversion-rejected": 1, "class:source-already-converted": 1},
+    },
+    "C08": {
+        "variants": ["rel"],
+        "quick": 4000,
+        "thorough": 100000,
+        "rule": "case = (map, reachable mode, base settings, score spec); (1) the same game-allowed legacy combination as u32/"
+                "GameModsLegacy/GameModsIntermode/&GameModsIntermode/lazer GameMods must give equal difficulty, strains, performance "
+                "(via Difficulty::mods and via Performance::mods) and attribute-builder output; (2) lazer DT/NC/HT/DC with speed_change r "
+                "vs default mod + clock_rate(r); (3) lazer DifficultyAdjust(field=v) vs Difficulty::field(v as f32,false) with "
+                "NM/HR/EZ/DT/HT combos. Mod sets the game cannot produce (EZ+HR, DT+HT, two key mods) are not generated. "
+                "non-trivial = map has >= 2 objects",
+        "required": {"rate:NC": 1, "rate:DC": 1, "rate:DT": 1, "rate:HT": 1, "da:ar": 1, "da:cs": 1, "da:hp": 1, "da:od": 1,
+                     "repr:Lazer": 1, "repr:Intermode": 1},
+    },
+    "C15": {
+        "variants": ["rel", "dbg"],
+        "quick": 6000,
+        "thorough": 150000,
+        "rule": "case = (map, reachable mode, settings); S = plain next() sequence; 4 random programs over {next, nth(k), len/size_hint, "
+                "by_ref().step_by, skip, take, count, last, pokes after exhaustion} with k in {0,1,2,small,rem-1,rem,rem+1,usize::MAX} "
+                "against the positional model, zip of two fresh instances, and a gradual-performance schedule vs the next-only run; "
+                "both release and debug (overflow-checked) builds. non-trivial = |S| >= 2; distinct = (map, settings, program) digests",
+        "required": {"class:short-sequence(<=3)": 1, "mode:osu": 1, "mode:taiko": 1, "mode:catch": 1, "mode:mania": 1},
+    },
 }
 
 
